@@ -295,6 +295,9 @@ theorem missing_marker_only_without_counted_weight {v : Variant} {m : Subst ℝ}
     rw [hm, capDist_eq] at hd
     split_ifs at hd with hc <;> linarith
 
+/-- the hypothesis `mlDist … = .ok M` of the matrix theorems is satisfiable (two identical rows `AR`, `AR`: no search runs) -/
+example (m : Subst ℝ) : ∃ M, mlDist Variant.asIs m false [[65, 82], [65, 82]] none = .ok M := ⟨_, rfl⟩
+
 /-- every residue is one of the 20 amino acids or one of the characters `isAmbigu` knows (`-`, `.`, `*`, `X`) -/
 def ProteinAlphabet (l : List (PSite ℝ)) : Prop :=
   ∀ s ∈ l, (isAmbigu s.a = true ∨ (aaIndex s.a).isSome = true) ∧ (isAmbigu s.b = true ∨ (aaIndex s.b).isSome = true)
@@ -337,6 +340,12 @@ private theorem fLen_pos_of_differ {l : List (PSite ℝ)} (hw : ∀ s ∈ l, 0 <
       exact hnn t ht) _ (List.mem_map.mpr ⟨s, hs, rfl⟩)
   have := hw s hs
   linarith
+
+/-- `A`/`-` and `X`/`R` are within the protein alphabet -/
+example : ProteinAlphabet [⟨65, 45, true, 1⟩, ⟨88, 82, false, 2⟩] := by
+  intro s hs
+  simp at hs
+  rcases hs with rfl | rfl <;> decide
 
 /-- **distances lie in [0, 20]** — for the repaired source (`check2SequencesDiff` honours the site selection),
 positive site weights and residues among the 20 amino acids, `-`, `.`, `*`, `X`.  (For the unchanged tree see
